@@ -691,15 +691,16 @@ def _replay_real_cache(args, label):
     "C09.cache_race",
     covers=("preemptions=1", "eviction-during-race"),
     split={"pair": [(a, b) for a in range(2) for b in range(a, len(CACHE_OPS))], "r0": [False, True], "r1": [False, True]},
-    tier_split={"thorough": {"pair": [(a, b) for a in range(len(CACHE_OPS)) for b in range(a, len(CACHE_OPS))]}},
-    tier_args={"quick": {"P": 1}, "thorough": {"P": 2}},
+    tier_split={"thorough": {"pair": [(a, b) for a in range(len(CACHE_OPS)) for b in range(a, len(CACHE_OPS))], "r0": [False, True],
+                             "r1": [False, True]}},
+    tier_args={"quick": {"P": 1}, "thorough": {"P": 1}},
     bounds="two threads each performing one MemoryCache operation (all 36 unordered pairs of 8 operations, keys f#1/h1, f#1/h2 chosen per thread) from an "
            "ARBITRARY valid cache state over 2 keys (resident / has-value bits, sizes, budget: unbounded non-negative ints, new sizes "
-           "likewise); every schedule with at most 1 (quick) / 2 (thorough) pre-emptions at statement granularity inside the cache methods: invariant afterwards, "
+           "likewise); every schedule with at most 1 pre-emption (quick: the 15 pairs involving a put; thorough: all 36 pairs; two pre-emptions: C09.cache_race_p2) at statement granularity inside the cache methods: invariant afterwards, "
            "only read_result's KeyError escapes, and final state and both return values equal those of one of the two sequential orders",
     variables="data: z0, z1, budget, na, nb (ints), s1, s2 (pre-emption steps); choice: r*, h*, ka, kb",
     stubs=("SizeOracle replaces MemoryCache._estimate_object_size", "CoopLock between generator twins"),
-    budget_s={"quick": 400, "thorough": 3000},
+    budget_s={"quick": 400, "thorough": 900},
     setup=install_twins,
     replay_real=_replay_real_cache,
     data_vars=7, choice_vars=6,
@@ -754,3 +755,24 @@ def cache_race(pair: tuple, ka: bool, kb: bool, r0: bool, r1: bool, h0: bool, h1
     cover("preemptions=%d" % len(schedule))
     if usage > 0 and (na + nb) > budget - usage:
         cover("eviction-during-race")
+
+
+@obligation(
+    "C09.cache_race_p2",
+    covers=("preemptions=2",),
+    split={"pair": [(a, b) for a in range(2) for b in range(a, len(CACHE_OPS))], "r0": [False, True], "r1": [False, True]},
+    tiers=("thorough",),
+    tier_args={"thorough": {"P": 2}},
+    bounds="as C09.cache_race with every schedule of at most 2 symbolic pre-emption steps, for the 15 operation pairs involving a put; "
+           "budget 600 s per (pair, resident bits) job - a job that does not exhaust its tree is reported INCONCLUSIVE",
+    variables="data: z0, z1, budget, na, nb, s1, s2; choice: h*, ka, kb",
+    stubs=("SizeOracle replaces MemoryCache._estimate_object_size", "CoopLock between generator twins"),
+    budget_s={"thorough": 600},
+    setup=install_twins,
+    replay_real=_replay_real_cache,
+    expect_inconclusive=True,
+    data_vars=7, choice_vars=6,
+)
+def cache_race_p2(pair: tuple, ka: bool, kb: bool, r0: bool, r1: bool, h0: bool, h1: bool, z0: int, z1: int, budget: int,
+                  na: int, nb: int, s1: int, s2: int, P: int):
+    cache_race(pair, ka, kb, r0, r1, h0, h1, z0, z1, budget, na, nb, s1, s2, P)
